@@ -42,7 +42,7 @@ ASSUMPTIONS = [
     "bounds are multiples of 1/8, so all sums are exact and the comparison "
     "|out| <= 2^size is exact (no tolerance)",
 ]
-BUDGET_S = {"quick": 55, "thorough": 780}
+BUDGET_S = {"quick": 50, "thorough": 780}
 REQUIRED_LABELS = {
     "quick": ["edge", "model", "aa", "tight", "very_tight", "exact_f32", "bias", "nobias",
               "k:dense", "k:conv1d", "k:conv2d", "k:dw2d", "kq:qb", "kq:po2",
